@@ -233,6 +233,15 @@ impl C05Hook {
                 return viol("float.cmp_mode", step, format!("partial_cmp across rounding modes gives {:?}, values compare {:?}: {}", a2.partial_cmp(b), exact, d()));
             }
         }
+        // against the same number built afresh through the public constructor
+        if a.repr().is_finite() {
+            let f = FBig::<R, B>::from_parts(a.repr().significand().clone(), a.repr().exponent());
+            self.comparisons += 1;
+            let d = || format!("{}[{}]={} vs the same number built by from_parts ({})", name, k, text_fbig(a), text_fbig(&f));
+            if let Some(v) = Self::check_ord(a, &f, Ordering::Equal, "float", step, d) {
+                return Some(v);
+            }
+        }
         None
     }
 
@@ -255,6 +264,18 @@ impl C05Hook {
                 if std_hash(a) != std_hash(b) {
                     return viol("ratio.hash", step, format!("equal values hash differently: {}", d()));
                 }
+            }
+        }
+        // against the same number built afresh (canonical by construction)
+        if !da.is_zero() {
+            let f = dashu_ratio::RBig::from_parts(a.numerator().clone(), a.denominator().clone());
+            self.comparisons += 1;
+            let d = || format!("R[{}]={} vs the same number built by from_parts ({})", k, text_rbig(a), text_rbig(&f));
+            if let Some(v) = Self::check_ord(a, &f, Ordering::Equal, "ratio", step, d) {
+                return Some(v);
+            }
+            if std_hash(a) != std_hash(&f) {
+                return viol("ratio.hash", step, format!("equal values hash differently: {}", d()));
             }
         }
         // RBig against the Relaxed pool through as_relaxed (same value, non-reduced partners)
